@@ -1,0 +1,371 @@
+//go:build verif
+
+package message
+
+// Machine-checked contracts for package message (verification build only).
+// Read by /verif/govc: the //@ blocks are the specification, the vspec* functions
+// are executable specification functions (inlined into the verification
+// conditions and also run by replay tests). Nothing here is compiled into a
+// normal build.
+
+//@ property C04 roots readLPBytes, (*header).decode, (*PubackMessage).Decode
+//@ property C03 roots (*header).encode, (*header).msglen, writeLPBytes, (*header).SetRemainingLength, (*header).PacketID, (*header).SetPacketID, (*header).SetType, (*PubackMessage).Len, (*PubackMessage).Encode, (*PubackMessage).Decode, (*PubackMessage).msglen
+
+// ---------------------------------------------------------------- spec functions
+
+func vspecBE16(b []byte, i int) int { return int(b[i])*256 + int(b[i+1]) }
+
+// vspecLPOK: a length-prefixed string starts at b[i] and ends at or before end (MQTT 1.5.3).
+func vspecLPOK(b []byte, i int, end int) bool {
+	return i+2 <= end && i+2+vspecBE16(b, i) <= end
+}
+
+// MQTT 2.2.3 remaining length: at most 4 bytes, 7 bits each, little endian,
+// continuation bit 0x80.
+func vspecVarintOK(b []byte, i int) bool {
+	return (i < len(b) && b[i] < 128) ||
+		(i+1 < len(b) && b[i] >= 128 && b[i+1] < 128) ||
+		(i+2 < len(b) && b[i] >= 128 && b[i+1] >= 128 && b[i+2] < 128) ||
+		(i+3 < len(b) && b[i] >= 128 && b[i+1] >= 128 && b[i+2] >= 128 && b[i+3] < 128)
+}
+
+func vspecVarintN(b []byte, i int) int {
+	if b[i] < 128 {
+		return 1
+	}
+	if b[i+1] < 128 {
+		return 2
+	}
+	if b[i+2] < 128 {
+		return 3
+	}
+	return 4
+}
+
+func vspecVarintVal(b []byte, i int) int {
+	if b[i] < 128 {
+		return int(b[i])
+	}
+	if b[i+1] < 128 {
+		return int(b[i]) - 128 + int(b[i+1])*128
+	}
+	if b[i+2] < 128 {
+		return int(b[i]) - 128 + (int(b[i+1])-128)*128 + int(b[i+2])*16384
+	}
+	return int(b[i]) - 128 + (int(b[i+1])-128)*128 + (int(b[i+2])-128)*16384 + int(b[i+3])*2097152
+}
+
+// vspecH: length of the fixed header at the start of b.
+func vspecH(b []byte) int { return 1 + vspecVarintN(b, 1) }
+
+func vspecVarintLen(x int) int {
+	if x <= 127 {
+		return 1
+	}
+	if x <= 16383 {
+		return 2
+	}
+	if x <= 2097151 {
+		return 3
+	}
+	return 4
+}
+
+// k-th byte of the canonical varint of x
+func vspecVarintByte(x int, k int) int {
+	if k == 0 {
+		return vspecIte(vspecVarintLen(x) > 1, x%128+128, x%128)
+	}
+	if k == 1 {
+		return vspecIte(vspecVarintLen(x) > 2, (x/128)%128+128, (x/128)%128)
+	}
+	if k == 2 {
+		return vspecIte(vspecVarintLen(x) > 3, (x/16384)%128+128, (x/16384)%128)
+	}
+	return (x / 2097152) % 128
+}
+
+func vspecIte(c bool, a, b int) int {
+	if c {
+		return a
+	}
+	return b
+}
+
+func vspecDefaultFlags(t Type) byte {
+	if t == PUBREL || t == SUBSCRIBE || t == UNSUBSCRIBE {
+		return 2
+	}
+	return 0
+}
+
+// MQTT 2.2.2: flag bits per packet type; PUBLISH: QoS bits must not be 3.
+func vspecFlagsOK(t Type, f byte) bool {
+	if t == PUBLISH {
+		return (f>>1)&3 != 3
+	}
+	return f == vspecDefaultFlags(t)
+}
+
+// vspecHdrOK: b starts with a well-formed fixed header of type t whose packet fits in b.
+func vspecHdrOK(b []byte, t Type) bool {
+	return len(b) >= 2 && Type(b[0]>>4) == t && t >= 1 && t <= 14 && vspecFlagsOK(t, b[0]&15) &&
+		vspecVarintOK(b, 1) && 1+vspecVarintN(b, 1)+vspecVarintVal(b, 1) <= len(b)
+}
+
+// binary.Uvarint, transcribed from the standard library loop (10-byte limit).
+// vspecUvK: index of the terminating byte, -1 if the buffer ends first, 10 if there are >10 bytes of continuation.
+func vspecUvK(b []byte) int {
+	if len(b) <= 0 {
+		return -1
+	}
+	if b[0] < 128 {
+		return 0
+	}
+	if len(b) <= 1 {
+		return -1
+	}
+	if b[1] < 128 {
+		return 1
+	}
+	if len(b) <= 2 {
+		return -1
+	}
+	if b[2] < 128 {
+		return 2
+	}
+	if len(b) <= 3 {
+		return -1
+	}
+	if b[3] < 128 {
+		return 3
+	}
+	if len(b) <= 4 {
+		return -1
+	}
+	if b[4] < 128 {
+		return 4
+	}
+	if len(b) <= 5 {
+		return -1
+	}
+	if b[5] < 128 {
+		return 5
+	}
+	if len(b) <= 6 {
+		return -1
+	}
+	if b[6] < 128 {
+		return 6
+	}
+	if len(b) <= 7 {
+		return -1
+	}
+	if b[7] < 128 {
+		return 7
+	}
+	if len(b) <= 8 {
+		return -1
+	}
+	if b[8] < 128 {
+		return 8
+	}
+	if len(b) <= 9 {
+		return -1
+	}
+	if b[9] < 128 {
+		return 9
+	}
+	if len(b) <= 10 {
+		return -1
+	}
+	return 10
+}
+
+// ---------------------------------------------------------------- trusted externals
+
+//@ extern fmt.Errorf
+//@   ensures result != nil
+
+//@ extern (encoding/binary.bigEndian).Uint16
+//@   flag args recv, b
+//@   pure
+//@   requires len(b) >= 2
+//@   ensures int(result) == vspecBE16(b, 0)
+
+//@ extern (encoding/binary.bigEndian).PutUint16
+//@   flag args recv, b, v
+//@   pure
+//@   requires len(b) >= 2
+//@   ensures int(v) == vspecBE16(b, 0)
+//@   modifies elems(b, 0, 2)
+
+// Contract of binary.Uvarint: exact for encodings of up to 5 bytes, length-only beyond.
+//@ extern encoding/binary.Uvarint
+//@   results x, n
+//@   pure
+//@   ensures vspecUvK(buf) == -1 ==> x == 0 && n == 0
+//@   ensures vspecUvK(buf) == 10 ==> x == 0 && n == -11
+//@   ensures vspecUvK(buf) == 9 && buf[9] > 1 ==> x == 0 && n == -10
+//@   ensures vspecUvK(buf) >= 0 && vspecUvK(buf) <= 9 && !(vspecUvK(buf) == 9 && buf[9] > 1) ==> n == vspecUvK(buf)+1
+//@   ensures vspecUvK(buf) >= 0 && vspecUvK(buf) <= 3 ==> int(x) == vspecVarintVal(buf, 0)
+//@   ensures vspecUvK(buf) == 4 ==> int(x) == int(buf[0])-128 + (int(buf[1])-128)*128 + (int(buf[2])-128)*16384 + (int(buf[3])-128)*2097152 + int(buf[4])*268435456
+
+//@ extern encoding/binary.PutUvarint
+//@   results n
+//@   pure
+//@   requires int(x) <= 268435455
+//@   requires len(buf) >= vspecVarintLen(int(x))
+//@   ensures n == vspecVarintLen(int(x))
+//@   ensures forall(0, n, func(k int) bool { return int(buf[k]) == vspecVarintByte(int(x), k) })
+//@   modifies elems(buf, 0, n)
+
+//@ extern bytes.IndexByte
+//@   results r
+//@   pure
+//@   ensures -1 <= r && r < len(b)
+//@   ensures r == -1 ==> forall(0, len(b), func(i int) bool { return b[i] != c })
+//@   ensures r >= 0 ==> b[r] == c && forall(0, r, func(i int) bool { return b[i] != c })
+
+// ---------------------------------------------------------------- helpers
+
+//@ func (Type).Valid
+//@   pure
+//@   ensures result == (t >= 1 && t <= 14)
+
+//@ func (Type).DefaultFlags
+//@   pure
+//@   ensures result == vspecDefaultFlags(t)
+
+//@ func ValidQos
+//@   pure
+//@   ensures result == (qos <= 2)
+
+//@ func ValidTopic
+//@   pure
+//@   ensures result == (len(topic) > 0 && forall(0, len(topic), func(i int) bool { return topic[i] != '#' && topic[i] != '+' }))
+
+//@ func (*header).Type
+//@   pure
+//@   requires len(h.mtypeflags) == 1
+//@   ensures result == Type(h.mtypeflags[0] >> 4)
+
+//@ func (*header).Flags
+//@   pure
+//@   requires len(h.mtypeflags) >= 1
+//@   ensures result == h.mtypeflags[0] & 15
+
+//@ func readLPBytes
+//@   results b, n, err
+//@   strictslice
+//@   ensures[C04:count] 0 <= n && n <= len(buf)
+//@   ensures[C04:accept] vspecLPOK(buf, 0, len(buf)) ==> err == nil
+//@   ensures[C03:value] err == nil ==> n == 2+vspecBE16(buf,0) && arr(b) == arr(buf) && off(b) == off(buf)+2 && len(b) == n-2
+//@   modifies nothing
+
+//@ func (*header).decode
+//@   results n, err
+//@   strictslice
+//@   requires len(h.mtypeflags) == 1
+//@   ensures[C04:count] 0 <= n && n <= len(src)
+//@   ensures[C04:fits] err == nil ==> 2 <= n && 0 <= h.remlen && n+int(h.remlen) <= len(src)
+//@   ensures[C04:accept] vspecHdrOK(src, old(Type(h.mtypeflags[0]>>4))) ==> err == nil
+//@   ensures[C03:value] err == nil ==> vspecVarintOK(src, 1) && n == 1+vspecVarintN(src, 1) && int(h.remlen) == vspecVarintVal(src, 1)
+//@   ensures[C03:flags] err == nil ==> sameslice(h.mtypeflags, src[0:1]) && Type(src[0]>>4) == old(Type(h.mtypeflags[0]>>4)) && vspecFlagsOK(Type(src[0]>>4), src[0]&15)
+//@   ensures[C03:dbuf] err == nil ==> sameslice(h.dbuf, src[:n+int(h.remlen)])
+//@   modifies h.remlen, h.mtypeflags, h.dbuf
+
+//@ func (*header).msglen
+//@   pure
+//@   ensures result == 1+vspecVarintLen(int(h.remlen))
+
+//@ func (*header).SetRemainingLength
+//@   results err
+//@   ensures (remlen < 0 || remlen > 268435455) ==> err != nil && h.remlen == old(h.remlen) && h.dirty == old(h.dirty)
+//@   ensures (0 <= remlen && remlen <= 268435455) ==> err == nil && h.remlen == remlen && h.dirty
+//@   modifies h.remlen, h.dirty
+
+//@ func (*header).PacketID
+//@   pure
+//@   ensures len(h.packetID) == 2 ==> int(result) == vspecBE16(h.packetID, 0)
+//@   ensures len(h.packetID) != 2 ==> result == 0
+
+//@ func (*header).SetPacketID
+//@   ensures v == 0 ==> sameslice(h.packetID, old(h.packetID)) && h.dirty == old(h.dirty) && samearr(old(h.packetID))
+//@   ensures v != 0 ==> len(h.packetID) == 2 && vspecBE16(h.packetID, 0) == int(v)
+//@   ensures v != 0 && old(len(h.packetID)) == 2 ==> sameslice(h.packetID, old(h.packetID)) && h.dirty == old(h.dirty)
+//@   ensures v != 0 && old(len(h.packetID)) != 2 ==> fresh(arr(h.packetID)) && h.dirty
+//@   modifies h.packetID, h.dirty, elems(h.packetID)
+
+//@ func (*header).SetType
+//@   results err
+//@   ensures !(mtype >= 1 && mtype <= 14) ==> err != nil && sameslice(h.mtypeflags, old(h.mtypeflags)) && h.dirty == old(h.dirty)
+//@   ensures mtype >= 1 && mtype <= 14 ==> err == nil && len(h.mtypeflags) == 1 && h.mtypeflags[0] == byte(mtype)*16 + vspecDefaultFlags(mtype)
+//@   ensures mtype >= 1 && mtype <= 14 && old(len(h.mtypeflags)) == 1 ==> sameslice(h.mtypeflags, old(h.mtypeflags)) && h.dirty == old(h.dirty)
+//@   ensures mtype >= 1 && mtype <= 14 && old(len(h.mtypeflags)) != 1 ==> fresh(arr(h.mtypeflags)) && h.dirty
+//@   modifies h.mtypeflags, h.dirty, elems(h.mtypeflags)
+
+//@ func (*header).encode
+//@   results n, err
+//@   requires len(h.mtypeflags) == 1
+//@   ensures[C03:len] err == nil ==> 0 <= h.remlen && h.remlen <= 268435455 && n == 1+vspecVarintLen(int(h.remlen)) && n <= len(dst)
+//@   ensures[C03:wire] err == nil ==> dst[0] == old(h.mtypeflags[0]) && forall(0, n-1, func(k int) bool { return int(dst[1+k]) == vspecVarintByte(int(h.remlen), k) })
+//@   ensures[C03:none] err != nil ==> n == 0
+//@   ensures[C03:accept] 0 <= h.remlen && h.remlen <= 268435455 && len(dst) >= 1+vspecVarintLen(int(h.remlen)) && old(h.mtypeflags[0]) >= 16 && old(h.mtypeflags[0]) < 240 ==> err == nil
+//@   modifies elems(dst, 0, n)
+
+//@ func writeLPBytes
+//@   results n, err
+//@   requires arr(b) != arr(buf) || len(buf) == 0
+//@   ensures[C03:accept] (err == nil) == (len(b) <= 65535 && len(buf) >= 2+len(b))
+//@   ensures[C03:wire] err == nil ==> n == 2+len(b) && vspecBE16(buf, 0) == len(b) && eqbytes(buf[2:n], b) && samearr(b)
+//@   ensures[C03:none] err != nil ==> n == 0
+//@   modifies elems(buf, 0, n)
+
+// ---------------------------------------------------------------- PUBACK family (PUBACK, PUBREC, PUBREL, PUBCOMP, UNSUBACK)
+
+func vspecPubackLen(m *PubackMessage) int {
+	if !m.dirty {
+		return len(m.dbuf)
+	}
+	return 4
+}
+
+//@ func (*PubackMessage).msglen
+//@   pure
+//@   ensures result == 2
+
+//@ func (*PubackMessage).Len
+//@   ensures[C03:len] result == old(vspecPubackLen(m))
+//@   ensures !old(m.dirty) ==> m.remlen == old(m.remlen) && !m.dirty
+//@   ensures old(m.dirty) ==> m.remlen == 2 && m.dirty
+//@   modifies m.remlen, m.dirty
+
+//@ func (*PubackMessage).Decode
+//@   results n, err
+//@   strictslice
+//@   requires len(m.mtypeflags) == 1
+//@   ensures[C04:count] 0 <= n && n <= len(src)
+//@   ensures[C04:inside] err == nil ==> within(m.packetID, src, n) && within(m.mtypeflags, src, n) && within(m.dbuf, src, n)
+//@   ensures[C04:accept] vspecHdrOK(src, old(Type(m.mtypeflags[0]>>4))) && vspecVarintVal(src, 1) == 2 ==> err == nil
+//@   ensures[C03:fields] err == nil ==> n == vspecH(src)+2 && vspecVarintVal(src, 1) == 2 && sameslice(m.packetID, src[vspecH(src):n]) && sameslice(m.mtypeflags, src[0:1]) && Type(src[0]>>4) == old(Type(m.mtypeflags[0]>>4))
+//@   ensures[C03:clean] err == nil ==> !m.dirty && sameslice(m.dbuf, src[:n])
+//@   modifies m.remlen, m.mtypeflags, m.dbuf, m.packetID, m.dirty
+
+//@ func (*PubackMessage).Encode
+//@   results n, err
+//@   requires len(m.mtypeflags) == 1
+//@   requires len(m.packetID) == 0 || len(m.packetID) == 2
+//@   requires arr(dst) != arr(m.packetID) || len(m.packetID) != 2
+//@   ensures[C03:len] err == nil ==> n == old(vspecPubackLen(m)) && n <= len(dst)
+//@   ensures[C03:clean] err == nil && !old(m.dirty) ==> eqold(dst[:n], m.dbuf)
+//@   ensures[C03:wire] err == nil && old(m.dirty) ==> n == 4 && dst[0] == old(m.mtypeflags[0]) && dst[1] == 2 && vspecBE16(dst, 2) == old(int(vspecPacketID(m.packetID)))
+//@   ensures[C03:accept] old(m.dirty) && len(dst) >= 7 && old(m.mtypeflags[0]) >= 16 && old(m.mtypeflags[0]) < 240 ==> err == nil
+//@   modifies elems(dst, 0, n), m.remlen, m.dirty
+
+func vspecPacketID(p []byte) int {
+	if len(p) == 2 {
+		return vspecBE16(p, 0)
+	}
+	return 0
+}
